@@ -12,8 +12,8 @@ prop("C17",
      shrink_fields=["frames", "sizes"],
      rule="stream cases: 1-8 binary frames with sizes from {0,1,2,b-1,b,b+1,2b,3b+1,random} against read buffers b in {1,2,3,7,16,64} "
           "(constant or varying per read), client sends frame k+1 only when all bytes sent so far were read (so a read that waits for a "
-          "further frame although bytes are available is observed as Blocked); every 10th case is a handshake with a sub-protocol value "
-          "from a 13-word list. non-trivial = some frame larger than the read buffer (remainder path) or a handshake; distinct by case JSON.",
+          "further frame although bytes are available is observed as Blocked); before 12% of the binary frames the client also sends a TEXT frame (never part of the stream the model expects); "
+          "every 10th case is a handshake with a sub-protocol value from a 17-word list (the MQTT names, near misses such as mqttv3.1x1, others). non-trivial = some frame larger than the read buffer (remainder path) or a handshake; distinct by case JSON.",
      level_text="Theorems (coq/props/C17.v) over the executable model of wsConn.Read: for every list of frames and every list of read-buffer sizes, "
                 "bytes read ++ buffered remainder ++ pending frames = concatenation of the frame payloads (nothing lost, duplicated, reordered), completeness after EOF "
                 "or enough non-empty reads, and a read with buffered bytes returns >=1 byte without consuming a frame. The model is tied to transport/websocket.go by "
@@ -151,7 +151,10 @@ _TRIE_RULE = ("histories of 6-35 operations on a topics provider (2/3 memlockfre
     "unsubscribe, retained set/clear (QoS 0-2, empty payload, already-expired), publish, Retained(filter); topics and filters over the level alphabet {a, b, empty, $s, e-acute, +, #}, depth 1-4, "
     "biased to re-use earlier filters/topics and to derive topics from filters (that is where pruning and wildcards decide). Publish barrier: sentinel publish (single routing worker); "
     "retain barrier: sentinel retain polled through Retained. Every observation (receiver set of a publish, tags returned by Retained / by Subscribe) is compared with Trie.v AND with the "
-    "specification (Match.v on the abstract subscription / retained maps). non-trivial = at least one non-empty delivery or retained result; distinct by case JSON.")
+    "specification (Match.v on the abstract subscription / retained maps). Every tenth history runs through the WHOLE broker instead (harness/c01broker.go): sessions 1-2 are MQTT 5 connections, session 3 MQTT 3.1.1, "
+    "a v5 connection publishes; SUBSCRIBE (QoS 2, Retain Handling 0-2) / UNSUBSCRIBE / PUBLISH / retained PUBLISH (QoS 0-2, possibly empty) go over the wire, a quarter of the (session, filter) pairs as a shared subscription "
+    "$share/g<session>/<filter> (a group of one member), after each step a routing barrier and a PINGREQ barrier on every connection; a retained publish is compared as a store operation AND as a publish (receiver set). "
+    "non-trivial = at least one non-empty delivery or retained result; distinct by case JSON.")
 prop("C01", harness="C01",
      coq=_TRIE_COQ + ["props/C01.v"],
      n={"quick": 600, "thorough": 15000, "search": 2500},
@@ -205,7 +208,7 @@ prop("C19",
      n={"quick": 48, "thorough": 480, "search": 96},
      shrink_fields=[],
      rule="real-time runs, 24 in parallel: 5/6 'keep' cases with client keep-alive K in {1,2,2,3,0}, 25% with a forced server keep-alive of 1-2 s, and 0-4 packets (PINGREQ / PUBLISH qos0 / SUBSCRIBE) "
-          "sent at gaps either clearly inside the deadline or at most K seconds, then silence; 1/6 'conn' cases: a socket that never sends CONNECT with connect timeout 1-2 s. "
+          "sent at gaps either clearly inside the deadline or at most K seconds, then silence (a quarter of the cases with traffic are 'fragmented': PINGREQs written as 'C0', then '00 C0' at each send time, so every segment ends inside a packet); 1/6 'conn' cases: a socket that never sends CONNECT with connect timeout 1-2 s. "
           "Observables: whether and when the broker closed (ms since a time stamp taken BEFORE the CONNECT was written / the socket was opened; every send time is taken before its write, so a measured silence never under-estimates the one the broker saw), "
           "and whether a watcher saw the Will. Coq computes the expected closure time from the extracted "
           "formula and the ACTUAL send times; lower bounds are exact (never before the deadline, never before K s of silence), scheduling slack of 1.5 s is allowed above only. "
@@ -226,7 +229,7 @@ prop("C12",
      rule="60% 'seg': CONNECT + 1-7 packets that each elicit exactly one response (PINGREQ, SUBSCRIBE, PUBLISH qos1, UNSUBSCRIBE) written in segments: one byte at a time / all at once / packet boundaries / "
           "CONNECT together with the next packet / 1-5 random chunk sizes cycled; the model reads the same bytes with the same chunking and must recover the packets, the independent splitter parse_all too, "
           "and the broker must answer every packet in order. 20% 'hostile': valid prefix then flipped bytes / truncation / arbitrary bytes, in random segments: bystander still served (fuzz support, labelled so). "
-          "10% 'oversize': header announcing 100-200 MB against a 1-64 KB maximum: connection closed and process allocation (runtime.MemStats TotalAlloc delta) below half the announced size. "
+          "10% 'oversize': header announcing 100-200 MB against a 1-64 KB maximum, after CONNECT/CONNACK or (40%) as the very first packet of the connection: connection closed and process allocation (runtime.MemStats TotalAlloc delta) below half the announced size. "
           "10% 'outbound': v5 client announcing Maximum Packet Size 40-240, 12 publishes with payloads around that size (some with expiry): largest packet received <= maximum and the small ones all arrive. "
           "non-trivial = seg with at least one packet after CONNECT or any other kind; distinct by case JSON.",
      level_text="Theorems (coq/props/C12.v) over the executable model of reader.readPacket on a buffered reader fed by an adversarial read-size oracle: for EVERY byte string, EVERY two oracles and EVERY split "
